@@ -6,7 +6,7 @@ universe u
 
 
 namespace Sub
-variable {σ : Type u} {F : FileOps σ} {inv : σ → Prop} {abs : σ → AFile}
+variable {σ : Type} {F : FileOps σ} {inv : σ → Prop} {abs : σ → AFile}
 
 /-- window view of the inner file's abstract content -/
 def absSub (abs : σ → AFile) (s : Sub σ) : AFile :=
@@ -94,7 +94,7 @@ theorem read_refines (hF : IsReadable F inv abs) (s : Sub σ) (n : Int) (h : inv
 end Sub
 
 namespace Sub
-variable {σ : Type u} {F : FileOps σ} {inv : σ → Prop} {abs : σ → AFile}
+variable {σ : Type} {F : FileOps σ} {inv : σ → Prop} {abs : σ → AFile}
 
 theorem write_refines (hF : IsFile F inv abs) (s : Sub σ) (w : Bytes) (h : invSub inv abs s) :
     ∃ s', Sub.write F s w = .ok (((absSub abs s).write w).1, s') ∧
@@ -175,7 +175,7 @@ theorem write_refines (hF : IsFile F inv abs) (s : Sub σ) (w : Bytes) (h : invS
         rw [overlay_length_inside _ _ _ (by omega)]; exact hin
 end Sub
 namespace Sub
-variable {σ : Type u} {F : FileOps σ} {inv : σ → Prop} {abs : σ → AFile}
+variable {σ : Type} {F : FileOps σ} {inv : σ → Prop} {abs : σ → AFile}
 
 theorem seek_eq (s : Sub σ) (h : invSub inv abs s) (off wh : Int) :
     (match Sub.seekOp s off wh with
